@@ -43,12 +43,14 @@ SessionObject::SessionObject(SessionObjectStore* inParent, CK_SLOT_ID inSlotID, 
 	objectMutex = MutexFactory::i()->getMutex();
 	valid = (objectMutex != NULL);
 	parent = inParent;
+	inTransaction = false;
 }
 
 // Destructor
 SessionObject::~SessionObject()
 {
 	discardAttributes();
+	discardBackup();
 
 	MutexFactory::i()->recycleMutex(objectMutex);
 }
@@ -297,20 +299,76 @@ void SessionObject::discardAttributes()
 	}
 }
 
-// These functions are just stubs for session objects
+// Session objects live in memory only; a transaction keeps a copy of the
+// attributes so that a failed multi-attribute update can be rolled back
 bool SessionObject::startTransaction(Access)
 {
+	MutexLocker lock(objectMutex);
+
+	if (inTransaction)
+	{
+		return false;
+	}
+
+	for (std::map<CK_ATTRIBUTE_TYPE, OSAttribute*>::iterator i = attributes.begin(); i != attributes.end(); i++)
+	{
+		if (i->second == NULL)
+		{
+			continue;
+		}
+
+		transactionBackup[i->first] = new OSAttribute(*i->second);
+	}
+
+	inTransaction = true;
+
 	return true;
 }
 
 bool SessionObject::commitTransaction()
 {
+	MutexLocker lock(objectMutex);
+
+	if (!inTransaction)
+	{
+		return false;
+	}
+
+	discardBackup();
+	inTransaction = false;
+
 	return true;
 }
 
 bool SessionObject::abortTransaction()
 {
+	MutexLocker lock(objectMutex);
+
+	if (!inTransaction)
+	{
+		return false;
+	}
+
+	// Restore the attributes as they were when the transaction started
+	for (std::map<CK_ATTRIBUTE_TYPE, OSAttribute*>::iterator i = attributes.begin(); i != attributes.end(); i++)
+	{
+		delete i->second;
+	}
+	attributes = transactionBackup;
+	transactionBackup.clear();
+	inTransaction = false;
+
 	return true;
+}
+
+// Discard the copy of the attributes kept for an open transaction
+void SessionObject::discardBackup()
+{
+	for (std::map<CK_ATTRIBUTE_TYPE, OSAttribute*>::iterator i = transactionBackup.begin(); i != transactionBackup.end(); i++)
+	{
+		delete i->second;
+	}
+	transactionBackup.clear();
 }
 
 bool SessionObject::destroyObject()
